@@ -24,6 +24,12 @@ label(struct func *f, struct scope *s)
 		b = mkblock("switch_case");
 		funclabel(f, b);
 		i = intconstexpr(s, true);
+		/* the constant is converted to the promoted type of the controlling expression (C11 6.8.4.2p5) */
+		if (s->switchcases->type->size < 8) {
+			i &= 0xffffffff;
+			if (s->switchcases->type->u.basic.issigned)
+				i = (i ^ 0x80000000) - 0x80000000;
+		}
 		switchcase(s->switchcases, i, b);
 		expect(TCOLON, "after case expression");
 		break;
